@@ -47,6 +47,12 @@ fn cut_positions(enc: &wire::Encoded, exhaustive_up_to: usize, pick: u64) -> (Ve
     }
     v.sort_unstable();
     v.dedup();
+    // at most ~700 cut positions per long stream: keep a strided sample (deterministic)
+    if v.len() > 700 {
+        let stride = v.len().div_ceil(700);
+        let off = (pick as usize) % stride;
+        v = v.into_iter().skip(off).step_by(stride).collect();
+    }
     (v, false)
 }
 
@@ -157,7 +163,8 @@ pub fn check_greeting(case: &GreetingCase) -> CaseResult {
 fn strategy(tier: Tier) -> BoxedStrategy<Case> {
     (
         prop_oneof![
-            4 => wire::responses(5, 60, 60),
+            8 => wire::responses(5, 60, 60),
+            1 => wire::long_sequence().prop_map(|mut v| { v.truncate(40); v }),
             1 => wire::responses_maybe_huge(3, tier.pick(9_000, 20_000), 300, 6),
         ],
         any::<u64>(),
